@@ -16,6 +16,11 @@ CATCH = {  # which checks are expected to report each change (first = primary)
     'C09_m3': ['C09'], 'C09_m4': ['C04'], 'C10_m3': ['C10'], 'C10_m4': ['C10'], 'C12_m3': ['C12'], 'C12_m4': ['C12'],
     'C14_m3': ['C14'], 'C14_m4': ['C14'], 'C16_m3': ['C16'], 'C16_m4': ['C16'], 'C19_m3': ['C19'], 'C19_m4': ['C19'],
     'C20_m3': ['C20'], 'C20_m4': ['C20'],
+    # third round
+    'C03_m3': ['C03'], 'C03_m4': ['C03', 'C10'], 'C04_m3': ['C04'], 'C04_m4': ['C04'], 'C06_m3': ['C06'], 'C06_m4': ['C14'],
+    'C07_m3': ['C01'], 'C07_m4': ['C07'], 'C08_m3': ['C20'], 'C08_m4': ['C02'], 'C11_m3': ['C11'], 'C11_m4': ['C11'],
+    'C13_m3': ['C13'], 'C13_m4': ['C13'], 'C15_m3': ['C15'], 'C15_m4': ['C15'], 'C17_m3': ['C17'], 'C17_m4': ['C17'],
+    'C18_m3': ['C18'], 'C18_m4': ['C18'],
 }
 
 
